@@ -496,6 +496,23 @@ def second_run_probe(run, tier, rng):
             if problems:
                 run.fail("weights-at-other-beta", f"two consecutive run() calls on one Sampler: {problems[0]} ({len(problems)} such steps)", volume_variation=vv,
                          random_state=8)
+        # runs engineered so that the search ends strictly inside the termination band (1 - 1e-4, 1): what is recorded and what is
+        # handed on must still belong to ONE temperature there
+        import c10
+        n_band = 0
+        for sd, N, sig in ((11, 16, 5.0), (12, 48, 8.0), (13, 16, 8.0), (14, 48, 5.0), (15, 32, 6.0)):
+            del problems[:]
+            got = c10.band_sampler(sd, N, sig)
+            if got is None:
+                continue
+            sb, ratio = got
+            bl = float(sb.state.get_history("beta")[-1])
+            run.case(key=("band-step", sd), nontrivial=1.0 - 1e-4 < bl < 1.0)
+            n_band += int(1.0 - 1e-4 < bl < 1.0)
+            if problems:
+                run.fail("weights-at-other-beta", f"run whose temperature search ends inside the termination band (betas {[float(b) for b in sb.state.get_history('beta')][-3:]}): "
+                         f"{problems[0]}", n_particles=N, sigma=sig, ess_ratio=ratio, random_state=sd)
+        run.count("band-terminated runs under the reweighting spy", n_band)
     except Exception as e:
         run.fail("run-raises", f"second run() raised {type(e).__name__}: {e}")
     finally:
